@@ -34,6 +34,9 @@ func runC12(cases string, res *Result) {
 	firstKnown := map[string]*Finding{}
 	knownSize := map[string]int{}
 	readCases(cases, func(c Case) {
+		if evalAbort {
+			return
+		}
 		stream := c.str("stream")
 		res.Hist["stream:"+stream]++
 		res.Hist["site:"+c.str("site")]++
@@ -106,6 +109,33 @@ func runC12(cases string, res *Result) {
 				out, class, det := ee.render(main, parseContext(cs))
 				res.Evaluations++
 				res.Hist["class:"+class]++
+				if ci == 0 && known == "" && !evalAbort {
+					// the same call on engines with other settings, with the templates handed over by other routes and entry
+					// points, and on an engine with a past
+					prep := func(e2 *evalEngine) {
+						if g, ok := c["globals"].(map[string]interface{}); ok {
+							for name, v := range g {
+								s, _ := v.(string)
+								e2.eng.AddGlobal(name, parseValue(s))
+							}
+						}
+					}
+					c["main"] = main
+					msg := evalUnderSettings(c, parseContext(cs), prep, out, class)
+					if msg == "" {
+						msg = evalByOtherRoutes(c, parseContext(cs), prep, out, class)
+					}
+					if msg == "" {
+						msg = evalAfterHistory(c, parseContext(cs), prep, out, class)
+					}
+					delete(c, "main")
+					res.Hist["under-settings-routes-history"]++
+					if msg != "" {
+						res.add(Finding{Kind: "oracle", Where: stream + "/variants/" + main, Case: c, Expected: evalObserved(out, class), Observed: msg,
+							Detail: "settings, registration routes, entry points and earlier use of the engine have nothing to do with how a macro is reached"})
+						return
+					}
+				}
 				obs := evalObserved(out, class)
 				// O1 compares the call site: from the marker @S@ on (the defining template prints the library's own text first)
 				if k := strings.Index(out, "@S@"); class == "none" && k >= 0 {
